@@ -305,3 +305,14 @@ Qed.
 
 Lemma slot_spec_lt : forall key, slot_spec key < total_slots.
 Proof. intro. unfold slot_spec. apply N.mod_lt. discriminate. Qed.
+
+(* the supported partition counts are exactly the sizes of the table *)
+Theorem find_tags_supported : forall tbl p,
+  (exists tags, find_tags tbl p = Some tags) <-> In p (map fst tbl).
+Proof.
+  induction tbl as [|[q t] tbl IH]; intro p; cbn [find_tags map fst In].
+  - split; [intros [? H]; discriminate|tauto].
+  - destruct (N.eqb_spec q p) as [->|NE].
+    + split; [tauto|]. intros _. exists t. reflexivity.
+    + rewrite IH. split; [tauto|]. intros [E|H]; [contradiction|assumption].
+Qed.
